@@ -476,7 +476,7 @@ func main() {
 
 	// ------------------------------------------------------------ period: lattice pairs + windows
 	pe := &sink{vh.NewOut(f.Out, "period", coqHeader, "case", "mismatches", f.Seed,
-		"all 6^4 pairs of periods (NewPeriod(a,b), NewPeriod(c,d)) with endpoints on a 6-point lattice, for several lattices (1 ns, 1 s, 1 h, 1 day steps, one containing the zero time), "+
+		"all 6^4 pairs of periods (NewPeriod(a,b), NewPeriod(c,d)) with endpoints on a 6-point lattice (the second period represented in the same or in another Location: same instants), for several lattices (1 ns, 1 s, 1 h, 1 day steps, one containing the zero time), "+
 			"the same raw (Period{a,b} without normalisation) for one lattice, and windows NewPeriodWindow / NewPeriodWith<Unit>; "+
 			"non-trivial = the four endpoints are not pairwise distinct (touching, nested on an endpoint, equal or empty periods); window: anchor on a boundary date")}
 	pe.out.PerShard = 300
@@ -498,6 +498,9 @@ func main() {
 					for cc := 0; cc < 6; cc++ {
 						for d := 0; d < 6; d++ {
 							c := Case{Kind: "per", Zone: zUTC, Local: zUTC, Raw: raw, Per: [4]Inst{lat[a], lat[b], lat[cc], lat[d]}}
+							// representation of the second period: the same Location, or another one (same instants)
+							c.Zone2 = []ZoneSpec{zUTC, zP8, zM5}[(a+2*b+3*cc+5*d+li)%3]
+							pe.out.Count("second_period_location", map[bool]string{true: "same-as-first", false: "different"}[c.Zone2 == c.Zone])
 							pe.record(&c)
 						}
 					}
@@ -673,4 +676,3 @@ func corpusDST() []Case {
 	cs = append(cs, Case{Kind: "inst", Zone: zBerlin, Local: zBerlin, T: at(zBerlin, 2024, 3, 31, 4, 0, 0, 0), W: 1, Kw: 0, Nd: 0, H: 2, M: 30, S: 0, Class: "dst-witness"})
 	return cs
 }
-
